@@ -5,7 +5,7 @@ import re
 KEYWORDS = {'func', 'requires', 'ensures', 'modifies', 'loop', 'invariant', 'decreases', 'writes', 'spec',
             'axiom', 'lemma', 'typeinv', 'effect', 'property', 'wrap', 'track', 'trusted', 'assume',
             'pure', 'ovf', 'replay', 'note', 'havoc', 'package', 'funcvar', 'ghost', 'reads', 'bounded', 'use',
-            'assert', 'cut', 'opaque', 'params', 'deadreturns', 'bensures', 'mathint', 'global', 'globalinv', 'exit', 'entry', 'skip', 'callsite', 'frees', 'reveal'}
+            'assert', 'cut', 'opaque', 'params', 'deadreturns', 'bensures', 'mathint', 'global', 'globalinv', 'exit', 'entry', 'skip', 'callsite', 'frees', 'reveal', 'appfact'}
 
 
 class SpecError(Exception):
@@ -316,6 +316,7 @@ class Specs(object):
         self.specfuncs = {}
         self.lemmas = {}
         self.axioms = []
+        self.appfacts = {}
         self.typeinvs = {}
         self.globalinvs = []
         self.files = []
@@ -418,6 +419,11 @@ class Specs(object):
                 self.specfuncs[rest].opaque = True
             elif kw == 'axiom':
                 self.axioms.append(Clause('axiom', rest, props, src))
+            elif kw == 'appfact':
+                # appfact f: E   - a fact about every (ground) application of the uninterpreted spec function f;
+                # E may mention f's parameters and `result`
+                nm_, e_ = rest.split(':', 1)
+                self.appfacts.setdefault(nm_.strip(), []).append(Clause('appfact', e_.strip(), props, src))
             elif kw == 'globalinv':
                 cl = Clause('globalinv', rest, props, src)
                 cl.pkg = pkg
